@@ -39,7 +39,8 @@ def adapt_numpylike_reduce(op):
     classical = adapter.classical_from_numpy.ops(np)
 
     op = tracer.signature.python.constant(op)
-    op = adapter.decomposednamedtensor_from_classical.reduce(op, expected_type=np.ndarray)
+    # (Numpy reductions over all axes return a numpy scalar rather than a zero-dimensional array)
+    op = adapter.decomposednamedtensor_from_classical.reduce(op, expected_type=(np.ndarray, np.generic))
     op = adapter.namedtensor_from_decomposednamedtensor.op(op, classical)
     op = adapter.namedtensor_calltensorfactory.op(op, expected_type=np.ndarray)
     op = adapter.einx_from_namedtensor.reduce(op, iskwarg=iskwarg)
